@@ -59,8 +59,11 @@ Definition round_he (x : Q) : Z :=
   end.
 
 (* ---- scaling -------------------------------------------------------------- *)
-Record scaling := { to_int : Q -> Q; from_int : Q -> Q }.
-Definition linear : scaling := {| to_int := fun x => x; from_int := fun x => x |}.
+(* [sc_dom] = the assert of to_internal (value > 0 for LogScaling, 0 <= value < 1
+   for ReverseLogScaling, nothing for LinearScaling) *)
+Record scaling := { to_int : Q -> Q; from_int : Q -> Q; sc_dom : Q -> bool }.
+Definition linear : scaling :=
+  {| to_int := fun x => x; from_int := fun x => x; sc_dom := fun _ => true |}.
 
 (* ---- HyperparameterRangeContinuous ---------------------------------------- *)
 Record crange := { c_lo : Q; c_hi : Q; c_sc : scaling; c_alo : Q; c_ahi : Q }.
@@ -69,6 +72,7 @@ Definition c_hi_i (r : crange) : Q := to_int (c_sc r) (c_hi r).
 
 (* the asserts of __init__ *)
 Definition crange_ok (r : crange) : bool :=
+  sc_dom (c_sc r) (c_lo r) && sc_dom (c_sc r) (c_hi r) &&
   Qleb (c_lo r) (c_hi r) && Qleb (c_lo r) (c_ahi r) && Qleb (c_ahi r) (c_hi r) &&
   Qleb (c_lo r) (c_alo r) && Qleb (c_alo r) (c_hi r) && Qleb (c_alo r) (c_ahi r).
 
@@ -76,8 +80,10 @@ Definition cont_to_nd (eps : Q) (r : crange) (hp : Q) : option Q :=
   if Qleb (c_lo r - eps) hp && Qleb hp (c_hi r + eps) then
     let lower := c_lo_i r in
     let upper := c_hi_i r in
-    Some (if Qeqb upper lower then 0
-          else Qclip ((to_int (c_sc r) hp - lower) / (upper - lower)) 0 1)
+    if Qeqb upper lower then Some 0
+    else if sc_dom (c_sc r) hp
+         then Some (Qclip ((to_int (c_sc r) hp - lower) / (upper - lower)) 0 1)
+         else None
   else None.
 
 Definition scale_from_zero_one (eps value lb ub : Q) (sc : scaling) (li ui : Q) : option Q :=
@@ -124,7 +130,8 @@ Definition f_step (r : frange) : Q :=
   if Z.ltb 1 (f_size r) then (f_hi_i r - f_lo_i r) / inject_Z (f_size r - 1) else 0.
 Definition f_rint (r : frange) : irange :=
   {| i_lo := 0; i_hi := f_size r - 1; i_sc := linear; i_alo := 0; i_ahi := f_size r - 1 |}.
-Definition frange_ok (r : frange) : bool := Qleb (f_lo r) (f_hi r) && Z.leb 1 (f_size r).
+Definition frange_ok (r : frange) : bool :=
+  Qleb (f_lo r) (f_hi r) && Z.leb 1 (f_size r) && sc_dom (f_sc r) (f_lo r) && sc_dom (f_sc r) (f_hi r).
 
 Definition fr_map_from_int_pre (r : frange) (x : Z) : Q :=
   Qclip (from_int (f_sc r) (inject_Z x * f_step r + f_lo_i r)) (f_lo r) (f_hi r).
@@ -134,15 +141,20 @@ Definition fr_map_from_int (r : frange) (x : Z) : val :=
 (* value before rounding, exposed for the correspondence *)
 Definition fr_map_to_int_pre (r : frange) (y : Q) : Q :=
   (Qclip (to_int (f_sc r) y) (f_lo_i r) (f_hi_i r) - f_lo_i r) / f_step r.
-Definition fr_map_to_int (r : frange) (y : Q) : Z :=
-  if Qeqb (f_step r) 0 then 0%Z else round_he (fr_map_to_int_pre r y).
+(* to_internal(y) is applied to the un-clipped value: its assert can fail *)
+Definition fr_map_to_int (r : frange) (y : Q) : option Z :=
+  if Qeqb (f_step r) 0 then Some 0%Z
+  else if sc_dom (f_sc r) y then Some (round_he (fr_map_to_int_pre r y)) else None.
 Definition fr_to_nd (eps : Q) (r : frange) (hp : val) : option Q :=
-  int_to_nd eps (f_rint r) (fr_map_to_int r (val_num hp)).
+  match fr_map_to_int r (val_num hp) with
+  | Some i => int_to_nd eps (f_rint r) i
+  | None => None
+  end.
 Definition fr_from_nd (eps : Q) (r : frange) (v : Q) : option val :=
   option_map (fr_map_from_int r) (int_from_nd eps (f_rint r) v).
 
 (* ---- categorical, one-hot -------------------------------------------------- *)
-Fixpoint onehot (i n : nat) : list Q :=
+Fixpoint onehot (i n : nat) {struct n} : list Q :=
   match n with
   | O => []
   | S n' => match i with O => 1 :: repeat 0 n' | S i' => 0 :: onehot i' n' end
